@@ -19,7 +19,7 @@ ROOT="$(cd "$(dirname "$0")/.." && pwd)"
 mkdir -p "$D"
 if [ $REFRESH = 0 ]; then git -C /repo worktree add --detach "$D/repo" HEAD -q; else git -C "$D/repo" checkout -q -- .; fi
 mkdir -p "$D/verif"
-rsync -a --exclude .git --exclude replays --exclude seeded --exclude spikes --exclude '.work/prog*' "$ROOT/" "$D/verif/"
+rsync -a --ignore-missing-args --exclude .git --exclude replays --exclude seeded --exclude spikes --exclude '.work/prog*' "$ROOT/" "$D/verif/" || [ $? = 24 ]
 # the scratch copy must read the scratch worktree
 sed -i "s#/repo/#$D/repo/#g; s#\"/repo\"#\"$D/repo\"#g" "$D/verif/harness/Cargo.toml" "$D/verif/harness/src/"*.rs "$D/verif/tools/check.py" "$D/verif/tools/programs.py"
 rm -f "$D/verif/.work/harness.stamp"
